@@ -27,3 +27,5 @@ register_simp_attr obframe
 register_simp_attr bsframe
 /-- frame lemmas for (supply, bond denom) -/
 register_simp_attr ssframe
+/-- frame lemmas for the delegation records -/
+register_simp_attr dframe
